@@ -320,8 +320,9 @@ def native_replay(repo, unit, tests, descs):
     if not m:
         return 'build-or-run-error', out[-4000:]
     if int(m.group(3)) > 0:
-        hit = [d for d in descs if d and d in out]
-        return ('reproduced' if hit else 'failed-differently'), out[-6000:]
+        if 'kani::assume' in out or 'assumption' in out.lower() and 'should always hold' in out:
+            return 'assumption-violated-natively', out[-6000:]
+        return 'reproduced', out[-6000:]
     return 'passed-natively', out[-3000:]
 
 
@@ -513,7 +514,7 @@ def main(argv):
                 replay['kani_output'] = tail
                 replay['playback_tests'] = tests or []
                 native = 'no-counterexample'
-                if tests and not a.no_replay_run:
+                if tests and not a.no_replay_run and h.meta.get('replay') != 'none':
                     native, nout = native_replay(repo, h.unit, tests, descs)
                     replay['native_output'] = nout
                 replay['native_replay'] = native
